@@ -229,3 +229,18 @@ Definition run_validate (which : Z) (a b w : shape) : list Z :=
      else if which =? 2 then bin_by_phase_validate a b None
      else if which =? 3 then cycle_vector_mask_validate a b
      else bin_by_phase_validate a b (Some w)).
+
+(* ---- specification vocabulary for ensure_equal_dims ----------------------------------------
+   r0 = rank of the first array.  [has_dims]: the array has every axis that is looked at;
+   [dims_of]: the lengths of those axes.                                                      *)
+Definition has_dims (dim : option nat) (r0 : nat) (s : shape) : Prop :=
+  match dim with
+  | None => (r0 <= length s)%nat
+  | Some d => (d < length s)%nat
+  end.
+
+Definition dims_of (dim : option nat) (r0 : nat) (s : shape) : list nat :=
+  match dim with
+  | None => firstn r0 s
+  | Some d => [nth d s 0%nat]
+  end.
